@@ -28,6 +28,9 @@ func NewPLL(log *slog.Logger, clk timebase.SystemClock) *Pll {
 }
 
 func (l *Pll) Do(offset time.Duration, weight float64) {
+	// the measured offset as given: negating it twice is not the identity
+	// for math.MinInt64 (Inv saturates)
+	measured := offset
 	offset = timemath.Inv(offset)
 	if l.epoch != l.clk.Epoch() {
 		l.epoch = l.clk.Epoch()
@@ -46,7 +49,7 @@ func (l *Pll) Do(offset time.Duration, weight float64) {
 		}
 		if mdt > 2*time.Second && weight > 3 {
 			if offset.Abs() > 1*time.Millisecond {
-				l.clk.Step(timemath.Inv(offset))
+				l.clk.Step(measured)
 			}
 			l.t0 = now
 			l.mode++
